@@ -614,6 +614,9 @@ def run_C13(run):
     # (2) wrappers P[true()], (P), P|P, not(not(P)), (P)[true()] over all 1-2 step paths (relative and absolute)
     run.gen_and_replay("MC_Expr", consts(BASE_EXPR, Family="C13wrap", MaxNodes=3 if q else 4, UseCat=True, AttrNames={"a"}),
                        name="wrappers", kind="sel-set")
+    # (2b) wrappers over two steps on different axes, on the catalogue (deep and twin-branch documents)
+    run.gen_and_replay("MC_Expr", consts(BASE_EXPR, Family="C13wrapMixed", MaxNodes=1 if q else 3, UseCat=True, AttrNames={"a"},
+                                         CatIds={2, 3, 5, 9} if q else ALL_CAT), name="wrappers-mixed-axes", kind="sel-set")
     run.gen_and_replay("MC_Expr", consts(BASE_EXPR, Family="C13wrapPred", MaxNodes=4 if q else 5, UseCat=True),
                        name="wrappers-pred", kind="sel-set")
     # (3) absolute paths with predicates from every start node (predicate-free ones are in C01)
